@@ -1,4 +1,5 @@
 import RedisVerif.Lemmas.RedisStep
+import RedisVerif.Lemmas.RedisX
 
 /-!
 # C17 — a failing command changes nothing; a read-only command changes nothing
@@ -218,5 +219,21 @@ example : (step st0 1000 (.ttl 1)).2 = .int 1 := by decide
 example : (step st0 1000 (.mget [1, 2, 3])).2 = .arr [.bulk [49, 48], .nil, .bulk [97, 98, 99]] := by decide
 -- …and a non-failing write DOES change the view, so `view` is not blind
 example : view (step st0 1000 (.incr 1)).1 1000 ≠ view st0 1000 := by decide
+
+/-! ## the commands outside `Cmd` (`Model/RedisX.lean`: SETBIT / GETBIT, BatchSet / BatchGet, KEYS pattern) -/
+
+theorem x_error_is_noop (s : State) (now : Nat) (c : RedisX.XCmd)
+    (he : (RedisX.stepX s now c).2.isError = true) : view (RedisX.stepX s now c).1 now = view s now := by
+  unfold RedisX.stepX at *
+  rw [RedisX.execX_err he, view_purge]
+
+theorem x_readonly_is_noop (s : State) (now : Nat) (c : RedisX.XCmd)
+    (hr : RedisX.isReadOnlyX c = true) : view (RedisX.stepX s now c).1 now = view s now := by
+  unfold RedisX.stepX
+  rw [RedisX.execX_ro hr, view_purge]
+
+-- BatchGet is not classified read-only by `Command::is_read_only` although it only reads
+example : RedisX.isReadOnlyX (.batchget [1, 2]) = false := rfl
+example : (RedisX.stepX st0 1000 (.setbit 2 3 1)).2 = .err .wrongType := by decide
 
 end RedisVerif.C17
